@@ -477,17 +477,19 @@ def h_modify(ctx, cfg):
     rewrite.Source.of(L).get_def("LineMapping.modify_line_offsets")
     shift = ctx.input("shift", SymInt.fresh("shift"))
     key = ctx.input("offset", SymInt.fresh("offset"))
-    for lined in (True, False):
-        line = ctx.input("line", SymInt.fresh("line")) if lined else None
-        d = _LineDict(key, line)
-        m = L.LineMapping.__new__(L.LineMapping)
-        m.offset_to_line, m.offset_to_additional_line_offsets = d, {}
-        f(m, shift)
-        if lined:
-            ctx.prove("lined_entry_shifted_by_the_amount", z3.And(z3.BoolVal(len(d.writes) == 1), Z(d.value) == line.z + shift.z))
-            ctx.prove("written_at_its_own_offset", z3.BoolVal(d.writes[0][0] is key))
-        else:
-            ctx.prove("no_line_entry_untouched", z3.BoolVal(d.writes == [] and d.value is None))
+    # stated over the mapping's contents after the call (whether the method rewrites entries in place or builds a new dict): three generic entries,
+    # a lined one, one without a line, another lined one; rule 6 extends this to any number of entries
+    l0, l2 = ctx.input("line0", SymInt.fresh("line0")), ctx.input("line2", SymInt.fresh("line2"))
+    m = L.LineMapping.__new__(L.LineMapping)
+    extra = {4: [0, 1]}
+    m.offset_to_line, m.offset_to_additional_line_offsets = {0: l0, 2: None, 4: l2}, extra
+    f(m, shift)
+    after = m.offset_to_line
+    ctx.prove("every_offset_is_still_mapped(an entry without a line is kept, not dropped)", z3.BoolVal(sorted(after) == [0, 2, 4]), detail=repr(sorted(after)))
+    if sorted(after) == [0, 2, 4]:
+        ctx.prove("lined_entry_shifted_by_the_amount", z3.And(zint(after[0]) == l0.z + shift.z, zint(after[4]) == l2.z + shift.z) if after[0] is not None and after[4] is not None else z3.BoolVal(False))
+        ctx.prove("no_line_entry_untouched", z3.BoolVal(after[2] is None))
+    ctx.prove("additional_line_offsets_are_left_alone", z3.BoolVal(m.offset_to_additional_line_offsets == {4: [0, 1]}))
 
 
 @harness("lm.LineMapping.additional_line", props=["C01", "C10", "C08", "C12"], functions=["code_data._line_mapping.LineMapping.pop_additional_line", "code_data._line_mapping.LineMapping.add_additional_line"],
